@@ -52,7 +52,12 @@ def enabled(events, maxnest):
     return out
 
 
-def configs(all_of_them):
+def configs(all_of_them, some=False):
+    if some:    # the configurations whose patterns differ per kind, plus one non-default trigger
+        return [{}, {"function_parameter_name_strip_regex": "^_[a-zA-Z]*_", "macro_parameter_name_strip_regex": "x"},
+                {"macro_parameter_name_strip_regex": "^_", "member_parameter_name_strip_regex": "^_m_"},
+                {"kwargs_doc_trigger_string": "KW!", "function_parameter_name_strip_regex": r"\W+",
+                 "macro_parameter_name_strip_regex": r"\W+", "member_parameter_name_strip_regex": r"\W+"}]
     if not all_of_them:
         return [{}]
     out = []
@@ -84,7 +89,7 @@ def expand(history, maxnest, depth, cfgdepth, case):
     out = []
     for ev in enabled(history, maxnest):
         h2 = history + [ev]
-        msgs, dg, nt, n = check(h2, configs(len(h2) <= cfgdepth), case)
+        msgs, dg, nt, n = check(h2, configs(len(h2) <= cfgdepth - 1, some=(len(h2) == cfgdepth)), case)
         key = None
         if len(h2) < depth:
             key = (statespace.model_key(h2), modsearch.impl_key(h2, case))
@@ -99,7 +104,7 @@ def run(ctx):
     maxnest, depth, cfgdepth = (3, 7, 3) if quick else (4, 9, 4)
     case = common.rot(["lower", "upper", "mixed"])[0]
     ctx.cov["bounds"] = {"max_definition_nesting": maxnest, "max_history": depth,
-                         "all_configurations_up_to_history": cfgdepth, "configurations": len(configs(True)),
+                         "all_configurations_up_to_history": cfgdepth - 1, "four_configurations_at_history": cfgdepth, "configurations": len(configs(True)),
                          "triggers": TRIGGERS, "strip_patterns": STRIPS, "command_case": case}
     ctx.bfs(functools.partial(expand, maxnest=maxnest, depth=depth, cfgdepth=cfgdepth, case=case),
             (statespace.model_key([]), None), depth, space="bfs")
